@@ -7,7 +7,7 @@ from .interp import (Interp, Env, Frame, Unsupported, InterpRaise, _Return, _Bre
 from .model import FuncInfo
 from .values import (SymNum, ComplexVal, Maybe, Obj, ExcObj, ClassRef, BuiltinType, ModRef,
                      ExtRef, BoundMethod, NativeMethod, Closure, SuperProxy, HashVal,
-                     RegexObj, Builtin)
+                     RegexObj, Builtin, UStr)
 
 
 class ExecMixin:
@@ -277,6 +277,10 @@ class ExecMixin:
     # ------------------------------------------------------------ calls
     def call(self, f, args, kwargs):
         self.tick()
+        if not self.stack:
+            # a call made by the modelled caller: every string it passes is its own object
+            args = [UStr(a) if type(a) is str else a for a in args]
+            kwargs = {(UStr(k) if type(k) is str else k): (UStr(v) if type(v) is str else v) for k, v in kwargs.items()}
         if isinstance(f, FuncInfo):
             return self.call_function(f, args, kwargs)
         if isinstance(f, BoundMethod):
@@ -565,4 +569,6 @@ class ExecMixin:
             return "type"
         if isinstance(v, ExcObj):
             return v.name
+        if isinstance(v, str):
+            return "str"
         return type(v).__name__
